@@ -35,7 +35,7 @@ RULE = (
 )
 ASSUMPTIONS = [
     'only ">= min(k,p)" is asserted (more accuracy is allowed)',
-    'rho = 0.4 x the smallest pole modulus of the sweep (1/|diag QDelta|), clipped to [0.05, 1.5]; n = 128 points keep aliasing below 1e-40',
+    'rho = 0.4 x the smallest pole modulus of the sweep (1/|diag QDelta|), at most 1.5; n = 128 points keep aliasing below 1e-40',
     'documented RK orders are taken from the class docstrings and the repository test table (listed in ORDERS below)',
 ]
 
@@ -111,7 +111,9 @@ def prop_sdc(case, r):
     dmax = float(diag.max()) if diag.size else 0.0
     if hasattr(swp, 'genQI') and swp.genQI.isKDependent():
         dmax = max(dmax, float(np.abs(np.asarray(swp.coll.nodes)).max()))
-    rho = float(np.clip(0.4 / dmax if dmax > 0 else 1.5, 0.05, 1.5))  # k sweeps give poles of order k at 1/diag: stay well inside
+    # k sweeps give poles of order k at 1/diag: stay well inside. No lower clip: a floor above 0.4/dmax would put a pole inside the circle and
+    # alias into every coefficient (MIN on CHEBY-3 GAUSS M=5 has a diagonal entry 36.8); small radii only cost resolution, which is accounted below
+    rho = float(min(0.4 / dmax if dmax > 0 else 1.5, 1.5))
     if kind == 'imex':
         rho = min(rho, 0.5)
     j = np.arange(N)
